@@ -32,6 +32,7 @@ pub fn general_scope(tier: &str) -> TreeScope {
   for t in ["", "a", "\n", "a\nb", "a;b"] {
     small.push(Term::orig(t, &trees::file_for(t, trees::TEXTS_FULL)));
   }
+  small.push(Term::RawBufS(b"a\nb".to_vec()));
   // a few mapped leaves with several sources/names
   let sms_small = trees::sms_leaves(&["ab\n", "a\nb"], 2, &[None, Some(K_A), Some(K_B)]);
   for i in [3usize, 8, 17, 22, 40, 55] {
@@ -81,6 +82,7 @@ pub fn provenance_scope(tier: &str) -> TreeScope {
   for t in ["", "a", "\n", "a\nb", "a;b", "a\n\nb;\n"] {
     small.push(Term::orig(t, &trees::file_for(t, trees::TEXTS_FULL)));
   }
+  small.push(Term::RawBufS(b"a\nb".to_vec()));
   TreeScope {
     leaves,
     small_leaves: small,
@@ -222,6 +224,24 @@ pub fn tree_worker(prop: &str, tier: &str, k: usize, n: usize, ctx: &mut Ctx) {
           ctx.states += 1;
           ctx.count("far_column_family_trees");
           tc::c01(ctx, w);
+        });
+        crate::clear_current_case();
+      }
+      // SourceMapSource with an inner map whose segments, source and name indices point outside the
+      // text or the tables (the combined-map streamer forwards the text itself, so a chunk it drops on
+      // an undeclared index is text missing from the stream)
+      {
+        let mut st = Striper::new(k, n);
+        let mut wc = 0u64;
+        for_each_wild_combined(&mut st, &mut |t| {
+          wc += 1;
+          if tier != "thorough" && wc > 48 && wc % 3 != 0 {
+            return;
+          }
+          crate::set_current_case(t);
+          ctx.states += 1;
+          ctx.count("wild_combined_trees");
+          tc::c01(ctx, t);
         });
         crate::clear_current_case();
       }
@@ -613,6 +633,15 @@ pub fn c06_pool(tier: &str) -> (Vec<Term>, Vec<Term>) {
   }
   let named = trees::named_variants();
   pool.extend(named.iter().cloned());
+  // one segment whose generated text repeats the recorded content exactly up to the END of the
+  // original line it points to and then goes on (the last line of the content has no line break,
+  // the first one has): the column advances over the matching part, up to and including its last character
+  {
+    use crate::refcodec::Seg;
+    pool.push(Term::sms("cd.e", "tail.js", trees::map_spec(vec![Seg { gl: 1, gc: 0, orig: Some((0, 2, 0, None)) }], true)));
+    pool.push(Term::sms("d.e", "tail1.js", trees::map_spec(vec![Seg { gl: 1, gc: 0, orig: Some((0, 2, 1, None)) }], true)));
+    pool.push(Term::sms("ab.x\ncd", "tail2.js", trees::map_spec(vec![Seg { gl: 1, gc: 0, orig: Some((0, 1, 0, None)) }, Seg { gl: 2, gc: 0, orig: Some((0, 2, 0, None)) }], true)));
+  }
   // reduced pool for triples / nesting / composite inners
   let mut small: Vec<Term> = named;
   for (i, t) in pool.iter().enumerate() {
